@@ -14,6 +14,9 @@ import (
 
 const exitBound = 10 * time.Second
 
+// looks like a record, cannot be parsed
+const badAuditLine = "type=SYSCALL msg=audit(notatime:xyz): arch=c000003e syscall=59\n"
+
 type cellResult struct {
 	Cell         string  `json:"cell"`
 	Verdict      string  `json:"verdict"` // ok | violation | inconclusive
@@ -175,9 +178,9 @@ func runtimeCell(cause, load string) cellResult {
 		aw.Close()
 	case "unparsable-audit-line":
 		if fl != nil {
-			fl.inject <- "this is not an audit record\n"
+			fl.inject <- badAuditLine
 		} else {
-			_, _ = aw.WriteString("this is not an audit record\n")
+			_, _ = aw.WriteString(badAuditLine)
 		}
 	case "output-dev-full", "output-fifo-reader-left":
 		_, _ = sw.WriteString("4711 Failed password for bob from 1.2.3.4 port 5 ssh2\n")
